@@ -45,6 +45,10 @@ struct Inj {
     kind: u8,
     tid: u32,
     src: u8,
+    /// explicit source address (overrides `src`): e.g. the peer the request was really sent to
+    from: Option<SocketAddrV4>,
+    /// the id is written as its two low bytes only
+    short: bool,
 }
 
 thread_local! {
@@ -123,14 +127,15 @@ fn adversary(src: u8, eps: &[SocketAddrV4]) -> SocketAddrV4 {
 }
 
 fn injection_bytes(inj: &Inj, target: &Id20) -> Vec<u8> {
-    let t = inj.tid.to_be_bytes();
+    let t4 = inj.tid.to_be_bytes();
+    let t: &[u8] = if inj.short { &t4[2..] } else { &t4[..] };
     let vote = SocketAddrV4::new(Ipv4Addr::new(6, 6, 6, 6), 6666);
     let evil_id = [0xEEu8; 20];
     let forged_node = ([0xDDu8; 20], SocketAddrV4::new(Ipv4Addr::new(66, 6, 6, 7), 7777));
     match inj.kind {
-        0 => krpc::response(&t, vec![("id", B::bytes(evil_id))], Some(&vote), None),
+        0 => krpc::response(t, vec![("id", B::bytes(evil_id))], Some(&vote), None),
         1 => krpc::response(
-            &t,
+            t,
             vec![
                 ("id", B::bytes(evil_id)),
                 ("token", B::bytes(b"evil")),
@@ -142,14 +147,14 @@ fn injection_bytes(inj: &Inj, target: &Id20) -> Vec<u8> {
         2 => {
             let _ = target;
             krpc::response(
-                &t,
+                t,
                 vec![("id", B::bytes(evil_id)), ("token", B::bytes(b"evil")), ("v", B::bytes(V1))],
                 Some(&vote),
                 None,
             )
         }
-        3 => krpc::error(&t, 203, "forged"),
-        _ => krpc::error(&t, 301, "forged"),
+        3 => krpc::error(t, 203, "forged"),
+        _ => krpc::error(t, 301, "forged"),
     }
 }
 
@@ -237,7 +242,7 @@ fn scenario(chooser: Chooser, menu: &[Inj], reply_faults: bool, track: bool) -> 
             let c = w.chooser.choose("inject", 1 + menu.len() as u32);
             if c > 0 {
                 let inj = &menu[c as usize - 1];
-                let src = adversary(inj.src, &eps);
+                let src = inj.from.unwrap_or_else(|| adversary(inj.src, &eps));
                 w.faults.enabled = false;
                 w.send_raw_with_latency(src, a_addr, injection_bytes(inj, &v1_target), MS);
                 w.faults.enabled = reply_faults;
@@ -332,11 +337,99 @@ fn build_menu(base: &RunOut, tier: Tier, eps: &[SocketAddrV4]) -> Vec<Inj> {
                         continue;
                     }
                 }
-                m.push(Inj { kind, tid, src });
+                m.push(Inj { kind, tid, src, from: None, short: false });
             }
         }
     }
     m
+}
+
+const LONG_RUNNING_START: u32 = 70_000;
+
+/// Ids that differ from an outstanding one by a multiple of 65536 (or are its two low bytes),
+/// sent by the very peer the request went to.
+fn congruent_menu(lbase: &RunOut, tier: Tier) -> Vec<Inj> {
+    let kinds: Vec<u8> = if tier.is_quick() { vec![1, 4] } else { vec![0, 1, 2, 3, 4] };
+    let mut cmenu: Vec<Inj> = vec![];
+    for (tid, dest) in &lbase.tid_dest {
+        for &kind in &kinds {
+            cmenu.push(Inj { kind, tid: tid.wrapping_add(65536), src: 4, from: Some(*dest), short: false });
+            cmenu.push(Inj { kind, tid: *tid, src: 4, from: Some(*dest), short: true });
+            if !tier.is_quick() {
+                cmenu.push(Inj { kind, tid: tid.wrapping_sub(65536), src: 4, from: Some(*dest), short: false });
+                cmenu.push(Inj { kind, tid: tid.wrapping_add(1 << 31), src: 4, from: Some(*dest), short: false });
+            }
+        }
+    }
+    cmenu
+}
+
+/// A request sent to an unspecified address (a bootstrap entry "0.0.0.0:6881", which reaches the
+/// local host): the reply legitimately comes from another IP, so the code only compares ports
+/// there - but it must still compare them. Differential: before the genuine reply to the n-th
+/// such request, a third party sends a reply with the right id from another PORT.
+fn unspecified_destination(out: &mut Partial) {
+    let dest = SocketAddrV4::new(Ipv4Addr::UNSPECIFIED, 6881);
+    let replies_from = SocketAddrV4::new(Ipv4Addr::LOCALHOST, 6881);
+    let forged_node = ([0xDDu8; 20], SocketAddrV4::new(Ipv4Addr::new(66, 6, 6, 7), 7777));
+    let target: Id20 = [0x5B; 20];
+    let run = |inject_at: Option<(usize, SocketAddrV4)>| -> (String, bool, usize, u64) {
+        let mut w = World::new(Chooser::default_run());
+        let ep = w.add_endpoint(dest);
+        let a = w.add_node(NodeCfg::new([9, 9, 9, 9], 7000).bootstrap(&[dest]).id([0x21; 20]));
+        let a_addr = w.node_addr(a);
+        let mut seen = 0usize;
+        let mut call: Option<usize> = None;
+        let h = w.now + 20 * SEC;
+        w.run_until(h, |w, ev| {
+            if let Event::EndpointRecv { ep: e, dgram } = ev {
+                if *e == ep {
+                    if let Some(q) = Krpc::parse(&dgram.bytes) {
+                        if q.is_query() {
+                            if let Some((n, from)) = inject_at {
+                                if n == seen {
+                                    let bytes = krpc::response(&q.t, vec![("id", B::bytes([0xEEu8; 20])), ("token", B::bytes(b"evil")), ("nodes", B::bytes(krpc::compact_nodes(&[forged_node])))], Some(&a_addr), Some(&krpc::VERSION_RS));
+                                    w.send_raw_with_latency(from, a_addr, bytes, MS);
+                                }
+                            }
+                            seen += 1;
+                            let bytes = krpc::response(&q.t, vec![("id", B::bytes([0x77u8; 20])), ("nodes", B::bytes(Vec::<u8>::new()))], Some(&a_addr), Some(&krpc::VERSION_RS));
+                            w.send_raw_with_latency(replies_from, a_addr, bytes, DEFAULT_LATENCY);
+                        }
+                    }
+                }
+            }
+            if call.is_none() && w.now >= T0 + 2 * SEC {
+                call = Some(w.call_find_node(a, target.into()));
+            }
+            call.map(|c| w.result(c).is_some()).unwrap_or(false) && w.now >= T0 + 4 * SEC
+        });
+        let res = match call.and_then(|c| w.result(c)) {
+            Some(CallResult::Nodes(n)) => format!("{:?}", n.iter().map(|x| x.address()).collect::<Vec<_>>()),
+            other => format!("{other:?}"),
+        };
+        let asked_forged = w.sent().any(|(d, _)| d.from_node == Some(a) && d.to == forged_node.1);
+        (res, asked_forged, seen, w.steps)
+    };
+    let (base, base_forged, n, steps) = run(None);
+    out.add("executions", 1);
+    out.add("transitions", steps);
+    out.witness("requests to an unspecified address were answered", n > 0 && !base_forged);
+    for at in 0..n {
+        for (name, from) in [("same-ip-other-port", SocketAddrV4::new(Ipv4Addr::LOCALHOST, 4444)), ("other-ip-other-port", SocketAddrV4::new(Ipv4Addr::new(66, 6, 6, 6), 4444))] {
+            let (res, asked_forged, _, steps) = run(Some((at, from)));
+            out.add("executions", 1);
+            out.add("unspecified_destination_injections", 1);
+            out.add("transitions", steps);
+            if res != base || asked_forged {
+                out.violation(
+                    format!("injection-has-effect/unspecified-destination/{name}"),
+                    format!("request #{at} sent to {dest}: a reply with its id from {from} (another port) was accepted: find_node result {res} (unperturbed {base}), node listed by the forged reply asked: {asked_forged}"),
+                    json!({"part": "unspecified"}),
+                );
+            }
+        }
+    }
 }
 
 fn eps_addrs() -> Vec<SocketAddrV4> {
@@ -472,6 +565,43 @@ fn run(tier: Tier, shard: usize, nshards: usize, _seed: u64) -> Partial {
         }
     }
 
+    // --- part 4: a node that has sent more than 65536 requests, and the peer a request was
+    // really sent to answers with an id that differs from the outstanding one by a multiple of
+    // 65536 (or with its two low bytes only): not that request's id, so no effect - and the
+    // genuine reply must still be accepted afterwards.
+    {
+        let start_tid: u32 = LONG_RUNNING_START;
+        START_TID.with(|c| c.set(Some(start_tid)));
+        let (_, lbase) = scenario(Chooser::default_run(), &[], false, false);
+        let cmenu = congruent_menu(&lbase, tier);
+        out.gauge_max("congruent_id_menu", cmenu.len() as u64);
+        let mut ex4 = Explorer::new(1, (shard, nshards));
+        ex4.explore(&mut |chooser, count| {
+            let (ch, r) = scenario(chooser, &cmenu, false, false);
+            if count {
+                out.add("executions", 1);
+                out.add("congruent_id_injections", 1);
+                out.add("transitions", r.steps);
+                if r.obs != lbase.obs {
+                    let choices = ch.choices();
+                    let inj = choices.iter().find(|c| **c > 0).map(|c| cmenu[*c as usize - 1].clone());
+                    let how = inj.as_ref().map(|i| if i.short { "two-low-bytes" } else { "plus-multiple-of-65536" }).unwrap_or("?");
+                    out.violation(
+                        format!("injection-has-effect/{}/congruent-id-from-the-addressed-peer/{how}", lbase.obs.class(&r.obs)),
+                        format!("node whose transaction ids are above 65536 (counter started at {start_tid}); the addressed peer sends {:?} before its genuine reply: {}", inj, lbase.obs.diff(&r.obs)),
+                        json!({"part": "congruent", "tier": tier.name(), "choices": choices}),
+                    );
+                }
+            }
+            (ch, true)
+        });
+        START_TID.with(|c| c.set(None));
+    }
+
+    if shard == 1 % nshards {
+        unspecified_destination(&mut out);
+    }
+
     // --- part 2: duplicates and late replies of genuine answers
     let mut ex2 = Explorer::new(2, (shard, nshards));
     ex2.explore(&mut |chooser, count| {
@@ -567,6 +697,11 @@ impl TierExt for Tier {
 }
 
 fn replay(v: &Value) -> Result<Option<Violation>, String> {
+    if v.get("part").and_then(|p| p.as_str()) == Some("unspecified") {
+        let mut out = Partial::default();
+        unspecified_destination(&mut out);
+        return Ok(out.violations.into_iter().next());
+    }
     if v.get("part").and_then(|p| p.as_str()) == Some("long-running") {
         let t = v.get("start_tid").and_then(|x| x.as_u64()).ok_or("start_tid")? as u32;
         let (_, base) = scenario(Chooser::default_run(), &[], false, false);
@@ -586,6 +721,16 @@ fn replay(v: &Value) -> Result<Option<Violation>, String> {
     let menu = build_menu(&base, tier, &eps);
     let mut out = Partial::default();
     match part {
+        "congruent" => {
+            START_TID.with(|c| c.set(Some(LONG_RUNNING_START)));
+            let (_, lbase) = scenario(Chooser::default_run(), &[], false, false);
+            let cmenu = congruent_menu(&lbase, tier);
+            let (_, r) = scenario(Chooser::new(choices.clone()), &cmenu, false, false);
+            START_TID.with(|c| c.set(None));
+            if r.obs != lbase.obs {
+                out.violation("injection-has-effect/congruent-id-from-the-addressed-peer", lbase.obs.diff(&r.obs), v.clone());
+            }
+        }
         "faults" => {
             let (_, r) = scenario(Chooser::new(choices.clone()), &[], true, false);
             let pos = choices.iter().position(|c| *c > 0).ok_or("no deviation")?;
